@@ -52,7 +52,7 @@ FAULT_PROBES = {"first_command_fails": "first_command_fails", "middle_command_fa
 INTERP_VARIANTS = [{"flags": ["-O"], "runs": {"quick": 64, "thorough": 800}, "what": "python -O (assert statements stripped from the code under test)"}]
 PROBES = ["all_commands_succeed", "first_command_fails", "middle_command_fails", "last_command_fails", "death_by_signal", "return_file_missing",
           "all_return_files_missing", "return_file_is_input_file", "binary_input_file", "unnamed_command", "no_return_files_requested",
-          "runner_killed_mid_command", "driver_second_instance_used_after_first", "driver_job_level_override", "driver_subclass_instance", "driver_created_used_dropped", "driver_class_level_envars", "two_jobs_same_jid_overlap", "driver_found_through_PATH", "driver_vectorised_job", "same_program_names_on_the_runners_PATH", "command_cannot_be_started", "driver_job_looked_at_through_the_class",
+          "runner_killed_mid_command", "driver_second_instance_used_after_first", "driver_job_level_override", "driver_subclass_instance", "driver_created_used_dropped", "driver_class_level_envars", "two_jobs_same_jid_overlap", "driver_found_through_PATH", "driver_vectorised_job", "same_program_names_on_the_runners_PATH", "command_cannot_be_started", "driver_job_looked_at_through_the_class", "longer_files_of_an_earlier_run_in_place",
           "two_runners_create_the_directories_together"]
 
 FAIL_KINDS = [("rc", 1), ("rc", 2), ("rc", 255), ("sig", -11), ("nostart", None)]
@@ -104,6 +104,7 @@ def gen_plan(r, tier, index):
         "runner_path_shadow": r.random() < 0.25,
         # some produced return files are empty: an existing file of 0 bytes exists
         "empty_returns": r.random() < 0.3,
+        "stale_files": r.random() < 0.3,
         "drivers": {
             "job_level": r.choice([{}, {}, {"executable": "jobexe"}, {"nprocs": 3}, {"envars": {"JOBVAR": "J"}}]),
             "class_envars": r.choice([None, None, {"CLSVAR": "c"}, {"CLSVAR": "c", "SHARED": "from-class"}]),
@@ -152,6 +153,17 @@ def _exec_one(plan, fail, missing, kill_at, root, res, sigctx, twin=False):
     ji = JobInput(plan["jid"], commands=cmds, files={k: _file_value(v) for k, v in plan["files"].items()} or None,
                   return_files=rf, envars=plan["envars"])
     inp = os.path.join(root, "thejob.inp")
+    stale_report = None
+    if plan.get("stale_files") and not fresh_dirs:
+        # a LONGER input and a LONGER report of an earlier run sit at the very paths this run writes to (a rerun after the
+        # job was simplified): what is read afterwards must be this run's input and this run's report, nothing of the old ones
+        JobInput(plan["jid"], commands=[("old " * 400, "oldname")] * 6, files={"old.bin": b"o" * 9000}).dump(inp)
+        os.makedirs(outdir, exist_ok=True)
+        JobOutput(stdouts={"oldname": "old output\n" * 2000}, stderrs={"oldname": "x" * 5000}, exitcode=0, files={"old.dat": b"z" * 30000}).dump(
+            os.path.join(outdir, "thejob.out"))
+        with open(os.path.join(outdir, "thejob.out"), "rb") as f_:
+            stale_report = f_.read()
+        res.stats["probe:longer_files_of_an_earlier_run_in_place"] += 1
     ji.dump(inp)
     n = len(cmds)
 
@@ -320,6 +332,9 @@ def _exec_one(plan, fail, missing, kill_at, root, res, sigctx, twin=False):
             return viol("exit-status", "a command could not be started but the exit status is 0")
         outf_ = os.path.join(outdir, "thejob.out")
         if os.path.isfile(outf_):
+            with open(outf_, "rb") as f_:
+                if f_.read() == stale_report:
+                    return      # the report of the earlier run, untouched: this runner wrote nothing (and claimed nothing)
             try:
                 jo_ = JobOutput.load(outf_)
             except Exception:  # noqa: BLE001
